@@ -47,10 +47,15 @@ type c13Script struct {
 	pattern  int
 	n, j     int
 	schedule int
+	defaults bool // the Client's interval fields are left at zero: the documented defaults (5 s / 1 s) apply
 }
 
 func (s c13Script) String() string {
-	return fmt.Sprintf("MaxRetransmits=%d WatchdogInterval=%v RetransmitInterval=%v, peer: %s (n=%d j=%d), transport: %s", s.N, s.W, s.R, aNames[s.pattern], s.n, s.j, sNames[s.schedule])
+	d := ""
+	if s.defaults {
+		d = " (defaults: fields left at zero)"
+	}
+	return fmt.Sprintf("MaxRetransmits=%d WatchdogInterval=%v RetransmitInterval=%v%s, peer: %s (n=%d j=%d), transport: %s", s.N, s.W, s.R, d, aNames[s.pattern], s.n, s.j, sNames[s.schedule])
 }
 
 func runC13Client(c *ev.Case, ctx *lib.Ctx, sc c13Script) {
@@ -63,6 +68,9 @@ func runC13Client(c *ev.Case, ctx *lib.Ctx, sc c13Script) {
 	cli := &sm.Client{Dict: ctx.Parser, Handler: machine, MaxRetransmits: uint(sc.N), RetransmitInterval: sc.R,
 		EnableWatchdog: true, WatchdogInterval: sc.W,
 		AuthApplicationID: []*diam.AVP{diam.NewAVP(258, 0x40, 0, datatype.Unsigned32(4))}}
+	if sc.defaults {
+		cli.RetransmitInterval, cli.WatchdogInterval = 0, 0
+	}
 	mc := memnet.NewConn()
 	type dwrRec struct {
 		t    time.Time
@@ -526,10 +534,25 @@ func TestC13(t *testing.T) {
 			}
 		}
 	}
+	// the documented defaults, with the interval fields left unset
+	for N := 0; N <= 2; N++ {
+		for sch := 0; sch < nSchedules; sch++ {
+			base := c13Script{N: N, W: 5 * time.Second, R: time.Second, schedule: sch, defaults: true}
+			s := base
+			s.pattern = aAll
+			scripts = append(scripts, s)
+			s = base
+			s.pattern, s.n = aStopAfter, 2
+			scripts = append(scripts, s)
+			s = base
+			s.pattern, s.j = aOnlyRetx, N
+			scripts = append(scripts, s)
+		}
+	}
 	reps := rec.N(4, 200)
 	rec.Suite("client-scripts", len(scripts)*reps, func(c *ev.Case) {
 		sc := scripts[c.I%len(scripts)]
-		c.Class("N=%d/%s/%s/W>R=%v", sc.N, aNames[sc.pattern], sNames[sc.schedule], sc.W > sc.R)
+		c.Class("N=%d/%s/%s/W>R=%v/defaults=%v", sc.N, aNames[sc.pattern], sNames[sc.schedule], sc.W > sc.R, sc.defaults)
 		leak := runBubbleWD(t, rec, c, 30*time.Second, func() { runC13Client(c, ctx, sc) })
 		if leak != "" && !c.Failed() {
 			c.Fail(ev.Sig{"op": "bubble-leak", "pattern": aNames[sc.pattern], "schedule": sNames[sc.schedule]}, nil, nil, "goroutines left blocked after the scenario: %s; %s", leak, sc.String())
